@@ -412,6 +412,47 @@ def r10(ctx, R):
             if isinstance(x, ast.Attribute) and x.attr in ('fftfreq', 'rfftfreq'):
                 src.append(name)
     R.check(sorted(set(src)) == ['get_wavenumbers'], 'FFTHelper :: fftfreq is called in get_wavenumbers only (single source of the scaled wavenumbers)', f'{SH}:FFTHelper', ['get_wavenumbers'], sorted(set(src)))
+    # (c) the p-fold Fourier integral inverts the p-fold derivative mode by mode: S = (1/(ik))^p, D = (ik)^p (symbolic, p = 1..4)
+    import sympy as sp
+    from ..inline import facts as _facts
+
+    def op(expr, kname):
+        n = ast.parse(expr, mode='eval').body
+        K, P = sp.Symbol('k', nonzero=True), sp.Symbol('p')
+
+        def go(e):
+            if isinstance(e, ast.Constant) and isinstance(e.value, complex):
+                return sp.I * sp.nsimplify(e.value.imag)
+            if isinstance(e, ast.Constant):
+                return sp.nsimplify(e.value)
+            if isinstance(e, ast.Name):
+                return K if e.id == kname else P if e.id == 'p' else sp.Symbol(e.id)
+            if isinstance(e, ast.BinOp):
+                a, b = go(e.left), go(e.right)
+                return {ast.Add: a + b, ast.Sub: a - b, ast.Mult: a * b, ast.Div: a / b, ast.Pow: a ** b}[type(e.op)]
+            if isinstance(e, ast.Call):
+                f = ast.unparse(e.func)
+                if f == 'self.get_wavenumbers':
+                    return K
+                if f.split('.')[-1] in ('diags', 'csc_matrix', 'tocsc', 'array') and e.args:
+                    return go(e.args[0])
+                if isinstance(e.func, ast.Attribute) and e.func.attr in ('get', 'tocsc', 'tocsr') and not e.args:
+                    return go(e.func.value)
+                if f.split('.')[-1] == 'matrix_power' and len(e.args) == 2:
+                    return go(e.args[0]) ** go(e.args[1])
+            raise AnalysisError(f'C17.R10: cannot read the Fourier operator formula {ast.unparse(e)[:60]}')
+        return go(n)
+
+    fI = _facts(ci.methods['get_integration_matrix'])
+    kI = [f[1] for f in fI if f[0] == 'assign' and 'get_wavenumbers' in f[2]]
+    retI = [f[1] for f in fI if f[0] == 'return']
+    fD = _facts(ci.methods['get_differentiation_matrix'])
+    retD = [f[1] for f in fD if f[0] == 'return' and 'not (self.useGPU)' in f[-1]]
+    if len(kI) != 1 or len(retI) != 1 or len(retD) != 1:
+        raise AnalysisError('C17.R10: FFTHelper integration / differentiation matrix not in the expected shape')
+    S, D = op(retI[0], kI[0]), op(retD[0], '')
+    bad = [pv for pv in (1, 2, 3, 4) if sp.simplify((S * D).subs(sp.Symbol('p'), pv) - 1) != 0]
+    R.check(not bad, 'FFTHelper :: integration matrix (p) times differentiation matrix (p) is the identity on every non-constant mode, p = 1..4', f'{SH}:FFTHelper.get_integration_matrix', 'S = (1/(ik))^p, D = (ik)^p', f'S = {S}, D = {D}; product != 1 for p in {bad}' if bad else 'ok')
     users = sorted(name for name, f in ci.methods.items() if name != 'get_wavenumbers' and any(isinstance(c, ast.Call) and ast.unparse(c.func) == 'self.get_wavenumbers' for c in ast.walk(f)))
     for name in ('get_differentiation_matrix', 'get_integration_matrix'):
         R.fn(f'{SH}:FFTHelper.{name}')
